@@ -66,18 +66,23 @@ ACQ_INSTANTS = [
 ]
 
 
-def make_case(country: str, ltd: Optional[int], lots: List[Tuple[int, int]], sells: List[Tuple[int, int, str]], incomes: List[Tuple[int, int]]) -> Dict[str, Any]:
-    """lots: (us, off) each of amount 1; sells: (us, off, amount); incomes: (us, off)."""
+def make_case(
+    country: str, ltd: Optional[int], lots: List[Tuple[int, int]], sells: List[Tuple[int, int, str]], incomes: List[Tuple[int, int]], out_type: str = "sell", income_type: str = "interest"
+) -> Dict[str, Any]:
+    """lots: (us, off) each of amount 1; sells: (us, off, amount) of type out_type; incomes: (us, off) of type income_type."""
     rows: List[Dict[str, Any]] = []
     row = 3
     for us, off in lots:
         rows.append({"table": "in", "row": row, "ts": model.fmt_ts(us, off), "ex": "Kraken", "ho": "Bob", "type": "buy", "price": "100", "crypto_in": "1", "uid": f"l{row}"})
         row += 1
     for us, off in incomes:
-        rows.append({"table": "in", "row": row, "ts": model.fmt_ts(us, off), "ex": "Kraken", "ho": "Bob", "type": "interest", "price": "120", "crypto_in": "0.5", "uid": f"i{row}"})
+        rows.append({"table": "in", "row": row, "ts": model.fmt_ts(us, off), "ex": "Kraken", "ho": "Bob", "type": income_type, "price": "120", "crypto_in": "0.5", "uid": f"i{row}"})
         row += 1
     for us, off, amount in sells:
-        rows.append({"table": "out", "row": row, "ts": model.fmt_ts(us, off), "ex": "Kraken", "ho": "Bob", "type": "sell", "price": "150", "out": amount, "fee": "0", "uid": f"s{row}"})
+        if out_type == "fee":
+            rows.append({"table": "out", "row": row, "ts": model.fmt_ts(us, off), "ex": "Kraken", "ho": "Bob", "type": "fee", "price": "150", "out": "0", "fee": amount, "uid": f"s{row}"})
+        else:
+            rows.append({"table": "out", "row": row, "ts": model.fmt_ts(us, off), "ex": "Kraken", "ho": "Bob", "type": out_type, "price": "150", "out": amount, "fee": "0", "uid": f"s{row}"})
         row += 1
     case: Dict[str, Any] = {"asset": "B1", "exchanges": ["Kraken"], "holders": ["Bob"], "rows": rows, "schedule": {"1970": "fifo"}, "country": country, "allow_negative": True}
     if ltd is not None:
@@ -121,7 +126,8 @@ def strategy_case(draw: Any) -> Dict[str, Any]:
         sells = [(sell_us, draw(st.sampled_from(OFFSETS)), first), (later, draw(st.sampled_from(OFFSETS)), rest)]
     else:
         sells = [(sell_us, draw(st.sampled_from(OFFSETS)), str(n_lots))]
-    case = make_case(country, ltd, lots, sells, incomes)
+    # every disposal type (OUT/STAKING, the one type that is also an earn type, included) and every earn type
+    case = make_case(country, ltd, lots, sells, incomes, out_type=draw(st.sampled_from(model.OUT_TYPES)), income_type=draw(st.sampled_from(model.EARN_TYPES)))
     case["schedule"] = {"1970": draw(st.sampled_from(model.METHODS if country in ("us", "generic") else ("fifo",)))}
     return case
 
@@ -130,9 +136,28 @@ def strategy(tier: str) -> Any:
     return strategy_case()
 
 
-def long_short_violations(out: Outcome, txs: List[model.Tx], fractions: List[Dict[str, Any]], country: str, long_term_days: Optional[int]) -> None:
+def long_short_violations(out: Outcome, txs: List[model.Tx], fractions: List[Dict[str, Any]], country: str, long_term_days: Optional[int], yearly: Optional[List[Dict[str, Any]]] = None) -> None:
     by_row = {t.row: t for t in txs}
     period = period_of(country, long_term_days)
+    if yearly is not None:
+        # the yearly summary "reports" fractions as long- or short-term as well: per (year, type) the crypto amount on its LONG
+        # line must be the total of the fractions whose two timestamps make them long-term (model flags, not rp2's)
+        want: Dict[Tuple[int, str, bool], Fraction] = {}
+        for fraction in fractions:
+            event = by_row[fraction["ev"]]
+            is_long = False
+            if fraction["lot"] is not None and period is not None:
+                is_long = event.us - by_row[fraction["lot"]].us >= period * DAY
+            key = (event.year, event.type, is_long)
+            want[key] = want.get(key, Fraction(0)) + fraction["amount"]
+        have: Dict[Tuple[int, str, bool], Fraction] = {}
+        for line in yearly:
+            key = (int(line["year"]), str(line["type"]), bool(line["long"]))
+            have[key] = have.get(key, Fraction(0)) + (line["crypto"] or Fraction(0))
+        if {k: v for k, v in have.items() if v} != {k: v for k, v in want.items() if v}:
+            diff = sorted(set(have.items()) ^ set(want.items()))[:4]
+            out.fail("yearly_summary_long_short", f"the yearly summary files crypto amounts under (year, type, long) = {sorted(have.items())}; by the holding periods of the fractions it should be {sorted(want.items())} (difference: {diff})")
+            return
     per_event: Dict[int, set] = {}
     for idx, fraction in enumerate(fractions):
         event = by_row[fraction["ev"]]
@@ -187,7 +212,7 @@ def minimize(case: Dict[str, Any], clause: str) -> Dict[str, Any]:
 
 def evaluate(case: Dict[str, Any]) -> Outcome:
     if case.get("e2e"):
-        return e2e.evaluate_assets(case, "c05e", lambda out, asset, txs, dump, schedule: long_short_violations(out, txs, dump["fractions"], case["country"], case.get("long_term_days")))
+        return e2e.evaluate_assets(case, "c05e", lambda out, asset, txs, dump, schedule: long_short_violations(out, txs, dump["fractions"], case["country"], case.get("long_term_days"), yearly=dump["yearly"]))
     out = Outcome()
     txs = model.make_txs(case["rows"])
     out.classes.add(f"country_{case['country']}" + (f"_{case['long_term_days']}" if case.get("long_term_days") is not None else ""))
@@ -195,7 +220,7 @@ def evaluate(case: Dict[str, Any]) -> Outcome:
     if not dump["ok"]:
         out.fail("valid_history_rejected", f"{dump['error_type']}: {dump['error'][:300]}")
         return out
-    long_short_violations(out, txs, dump["fractions"], case["country"], case.get("long_term_days"))
+    long_short_violations(out, txs, dump["fractions"], case["country"], case.get("long_term_days"), yearly=dump["yearly"])
     return out
 
 
